@@ -11,6 +11,8 @@ case = {id, f, op, tgt, pre, a, b, c, la, lb, lc, intrep, tree}
       "asg"  : t = __b
       "cond" : __c ? __a : __b
       "tree" : nested expression over leaves set with ctx.set
+      "se"   : expression over ONE target (tgt) whose operands read and write it: nodes var / upd / asg / cmpd / call
+               (a function storing a value in the target) / un / bin / cond / lit
 out = {"o":"value","res":wire,"after":wire} | eval outcome (syntax / jserror / host / hang ...)
 """
 from harness import wire
@@ -78,6 +80,52 @@ def render_tree(t, leaves):
     raise ValueError("tree node " + k)
 
 
+def render_se(t, T, leaves, calls):
+    """an expression whose operands read and write the one target T (JsOps!EvalS); calls collects (stored, returned)"""
+    k = t["t"]
+    sub = lambda x: render_se(x, T, leaves, calls)
+    if k == "lit":
+        if t.get("lt"):
+            return written(t["lt"])
+        leaves.append(t)
+        return "__v%d" % (len(leaves) - 1)
+    if k == "var":
+        return T
+    if k == "upd":
+        return "(" + (t["op"] + T if t["pre"] else T + t["op"]) + ")"
+    if k == "asg":
+        return "(" + T + " = " + sub(t["x"]) + ")"
+    if k == "cmpd":
+        return "(" + T + " " + t["op"] + "= " + sub(t["x"]) + ")"
+    if k == "call":
+        calls.append((sub(t["w"]), sub(t["x"])))
+        return "__c%d()" % (len(calls) - 1)
+    if k == "un":
+        return "(" + JS_OP.get(t["op"], t["op"]) + " (" + sub(t["x"]) + "))"
+    if k == "bin":
+        return "(" + sub(t["l"]) + " " + t["op"] + " " + sub(t["r"]) + ")"
+    if k == "cond":
+        return "(" + sub(t["c"]) + " ? " + sub(t["x"]) + " : " + sub(t["y"]) + ")"
+    raise ValueError("side-effect tree node " + k)
+
+
+def render_se_case(case, setv, A):
+    pro, texpr, rd, wrap = TARGETS[case["tgt"]]
+    T = texpr or "x"
+    leaves, calls = [], []
+    expr = render_se(case["tree"], T, leaves, calls)
+    for i, lf in enumerate(leaves):
+        setv("__v%d" % i, lf["v"], bool(lf.get("ir")))
+    pro = pro.replace("__a", A)
+    for i, (w, x) in enumerate(calls):           # functions that store in the target (declared where the target is in scope)
+        pro += " var __c%d = function(){ %s = %s; return %s; };" % (i, T, w, x)
+    if case["tgt"] == "free":
+        body = pro + " var f = function(){ return (" + expr + "); }; var r = f(); __out(r, " + rd + ");"
+    else:
+        body = pro + " var r = (" + expr + "); __out(r, " + rd + ");"
+    return "(function(){ " + body + " })();" if wrap else body
+
+
 def render(case, setv):
     f, op = case["f"], case.get("op", "")
     jsop = JS_OP.get(op, op)
@@ -100,6 +148,8 @@ def render(case, setv):
         return render_target(case["tgt"], lambda t: t + " = " + B, A)
     if f == "cond":
         return "__out((" + C + " ? " + A + " : " + B + "), 0);"
+    if f == "se":
+        return render_se_case(case, setv, A)
     if f == "tree":
         leaves = []
         src = render_tree(case["tree"], leaves)
